@@ -188,6 +188,15 @@ MUTANTS = [
       fn_scope.context_name = function_context_name''', '''      function_context_name = self.ctx.namer.new_symbol('fscope',
                                                         scope.referenced)''',
      ['malt.converters.functions.FunctionTransformer.visit_FunctionDef']),
+    ('c03-return-while-test-not-guarded', 'malt/converters/return_statements.py',
+     "          'not control_var and test',", "          'test',",
+     ['malt.converters.return_statements.ReturnStatementsTransformer.visit_While']),
+    ('c03-return-for-existing-extra-test-dropped', 'malt/converters/return_statements.py',
+     "            'not control_var and extra_test',", "            'not control_var',",
+     ['malt.converters.return_statements.ReturnStatementsTransformer.visit_For']),
+    ('c03-return-guard-flags-not-advanced', 'malt/converters/return_statements.py',
+     '    state.create_guard_now = state.create_guard_next\n', '',
+     ['malt.converters.return_statements.ReturnStatementsTransformer._postprocess_statement']),
     ('c16-exit-guard-swapped', 'malt/operators/function_wrappers.py',
      '''  def __exit__(self, exc_type, exc_val, exc_tb):
     if self.options.user_requested:''', '''  def __exit__(self, exc_type, exc_val, exc_tb):
